@@ -817,14 +817,16 @@ class ExcelCompiler:
                 # the reference depends on the range it resolves to
                 add_node_to_graph(self.cell_map[str(address)])
 
-            if excel_data.address.is_range:
+            if str(excel_data.address) in self.cell_map:
+                # an unbounded range can be bound to a cell or range that
+                # is already built
+                new_nodes = []
+            elif excel_data.address.is_range:
                 self.range_todos.append(str(excel_data.address))
                 new_nodes = build_range(excel_data)
-            elif str(excel_data.address) not in self.cell_map:
+            else:
                 # an unbounded range can be bound to a single cell
                 new_nodes = build_cell(excel_data)
-            else:
-                new_nodes = []
         else:
             new_nodes = build_cell(excel_data)
 
